@@ -134,6 +134,16 @@ def c03(tier='quick', seed=0):
                     R.case(key, bad, sample={'rules': rules_text, 'default': dcfg, 'query': q, 'roles': list(roles), 'decision': want})
                     if R.full:
                         return R.d
+                    # the same decision in the raising mode: "deny rather than an error" is PolicyNotAuthorized under
+                    # do_raise (callers ignore the return value there), never a silent return
+                    got_r = outcome(e.enforce, q, {}, {'roles': list(roles)}, True)
+                    want_r = ('ret', True) if want else ('exc', 'PolicyNotAuthorized')
+                    g_r = (got_r[0], bool(got_r[1]) if got_r[0] == 'ret' else got_r[1])
+                    R.case(key + ('do_raise',), None if g_r == want_r else
+                           'rules=%r default=%s enforce(%r, roles=%r, do_raise=True) gave %r, expected %r' % (
+                               rules_text, dcfg, q, list(roles), g_r, want_r))
+                    if R.full:
+                        return R.d
                     if dchk is not None or not rules_text:
                         continue
                     # histories: the same store installed through set_rules(), then the default rule redefined (or
@@ -379,8 +389,12 @@ def c07(tier='quick', seed=0):
                'exception with extra args or none x name / check object x registered or not (authorize) x targets that '
                'the debug dump can or cannot serialise x debug logging on/off; complete for this space')
     R.d['exhaustive'] = True
-    rules_text = {'allow': '@', 'deny': '!', 'admin': 'role:admin', 'alias': 'rule:admin', 'nested': 'not rule:deny'}
-    targets = [{}, {'k': 'v'}, {'obj': object()}, {1: 'a', 'b': 2}]
+    rules_text = {'allow': '@', 'deny': '!', 'admin': 'role:admin', 'alias': 'rule:admin', 'nested': 'not rule:deny',
+                  # rules that read attributes a log dump would mask (token, password): the dump handles copies only
+                  'tokeq': 'auth_token:%(auth_token)s', 'pwlit': "'hunter2':%(password)s"}
+    plain_seen = {}
+    targets = [{}, {'k': 'v'}, {'obj': object()}, {1: 'a', 'b': 2}, {'auth_token': 'tokA', 'password': 'hunter2'},
+               {'auth_token': 'tokB', 'password': 'other'}]
     cycl = {}
     cycl['self'] = cycl
     targets.append(cycl)
@@ -402,13 +416,21 @@ def c07(tier='quick', seed=0):
                             e = mk_enforcer(rules=policy.Rules.from_dict(rules_text))
                             e.register_default(policy.RuleDefault('allow', '@'))
                             rule = e.rules[name] if as_check else name
-                            creds = {'roles': list(roles)}
+                            creds = {'roles': list(roles), 'auth_token': 'tokB', 'password': 'pw'}
                             plain = outcome(e.enforce, rule, target, dict(creds))
                             if plain[0] != 'ret':
                                 R.case((debug, name, tuple(roles), ti, as_check),
                                        'enforce(%r, do_raise=False) raised %s' % (name, plain[1]))
                                 continue
                             allowed = bool(plain[1])
+                            # switching debug logging on changes what is logged, never what is decided
+                            pk = (name, tuple(roles), ti, as_check)
+                            if not debug:
+                                plain_seen[pk] = allowed
+                            elif pk in plain_seen and plain_seen[pk] != allowed:
+                                R.case((debug, name, tuple(roles), ti, as_check, 'debug-vs-plain'),
+                                       'enforce(%r, roles=%r, target#%d) decides %r with debug logging on and %r with it off' % (
+                                           name, roles, ti, allowed, plain_seen[pk]))
                             for exc, args, kwargs in ((None, (), {}), (MyExc, ('a1', 2), {'kw': 'v'}), (None, (), {'kw': 'v'}),
                                                       (None, ('a1',), {}), (None, ('a1', 2), {'kw': 'v', 'action': 'x'}),
                                                       (MyExc, (), {}), (MyExc, (), {'kw': 'v'})):
